@@ -1,6 +1,7 @@
 """C13 - position and comment bookkeeping is transparent."""
 from __future__ import annotations
 
+import copy
 import os
 import tempfile
 
@@ -25,8 +26,8 @@ FLAGS = [(False, False), (True, False), (False, True), (True, True)]
 
 
 def units(tier):
-    us = [("API", i) for i in range(8)] + [("S6", i) for i in range(16)]
-    us += [("DOCS", "S1", t) for t in V.object_types()] + [("DOCS", "S4", None)]
+    us = [("DOCS", "S4", i) for i in range(8)] + [("SPECIAL",)] + [("API", i) for i in range(8)] + [("S6", i) for i in range(16)]
+    us += [("DOCS", "S1", t) for t in V.object_types()]
     if tier == "thorough":
         us += [("DOCS", "S2", t) for t in V.object_types()]
     return us
@@ -44,7 +45,16 @@ def content_tokens(text):
     return [(t.cls, t.text) for t in RD.lex(text) if t.cls not in ("comment", "nl")]
 
 
-def judge_text(text):
+SPECIAL = [
+    'MAP\r\n  NAME "two\r\nlines" # c1\r\n  WEB # c2\r\n    TEMPLATE "a\r\n\r\nb"\r\n  END\r\n  /* block\r\n comment */\r\n  STATUS ON\r\nEND\r\n',
+    "LAYER # c\r\n  DATA 'select *\r\n from t' # trailing\r\n  TYPE POINT\r\n  METADATA\r\n    \"k\" \"v1\r\nv2\" # pair comment\r\n  END\r\nEND",
+    'MAP\n  NAME "tab\there" # c\n  SHAPEPATH "ff\x0chere\x85and\u2028here"\n  # above\n  LAYER\n    TYPE LINE\n    NAME "cr\rinside"\n  END\nEND',
+    'MAP # \x0c odd \u2028 comment \x85 text\n  NAME "n"\n  /* c1 */ /* c2 */ # c3\n  STATUS ON # c4 /* not c */\nEND',
+    'MAP\n\n\n  NAME "n"\n\n  # a\n\n  # b\n\n  LAYER\n\n    TYPE POINT # t\n\n  END # e1\n\nEND # e2\n# tail\n',
+]
+
+
+def judge_text(text, optsets=None):
     """(category, message) comparing the four flag combinations on one text"""
     try:
         plain = impl.loads(text)
@@ -84,10 +94,39 @@ def judge_text(text):
                     return "print_comments", "apart from comments the dictionary loaded with include_position=%s include_comments=True prints different tokens" % p
             except RD.ReadError as e:
                 return "print_unreadable", "output with comments cannot be read: %s" % e
+        # the same under formatter options: apart from comment text the printed text must be exactly the plain one
+        for o in optsets or ():
+            if c and "\n" not in o["newlinechar"]:
+                continue
+            try:
+                a = impl.dumps(copy.deepcopy(d), **o)
+                b = impl.dumps(copy.deepcopy(plain), **o)
+            except Exception as e:
+                return "dumps_fails", "printing with options %s raises %s" % (O.oname(o), impl.exc_name(e))
+            same = (a == b) if not c else (strip_comment_text(a) == strip_comment_text(b))
+            if not same:
+                return "print_options", "loaded with include_position=%s include_comments=%s the dictionary prints differently from the plain one under %s" % (p, c, O.oname(o))
     return None, None
 
 
-def run_docs(res, docs):
+def strip_comment_text(text):
+    """printed text with the comment tokens removed and trailing blanks / emptied lines dropped"""
+    toks = RD.lex(text)
+    out = []
+    pos = 0
+    for t in toks:
+        if t.cls == "comment":
+            out.append(text[pos:t.pos])
+            pos = t.pos + len(t.text)
+    out.append(text[pos:])
+    lines = [ln.rstrip(" \t") for ln in "".join(out).replace("\r\n", "\n").split("\n")]
+    return [ln for ln in lines if ln.strip()]
+
+
+CORNERS = [o for o in O.corner_sets() if not o["separate_complex_types"]]
+
+
+def run_docs(res, docs, with_options=False):
     for label, tree in docs:
         _, toks = D.render(tree)
         variants = [("uniform#", D.Style(gaps={i: " # c%d\n" % i + D.IND * t.depth for i, t in enumerate(toks) if i and t.stmt_start})),
@@ -97,7 +136,7 @@ def run_docs(res, docs):
                 variants.append(("gap %d=%r" % (i, g), D.Style(gaps={i: g})))
         for vname, st in variants:
             text = D.render(tree, st)[0]
-            cat, msg = judge_text(text)
+            cat, msg = judge_text(text, CORNERS if (with_options and not vname.startswith("gap")) else None)
             res["evals"] += 1
             if cat is None:
                 R.add_outcome(res, "transparent")
@@ -186,8 +225,21 @@ def run_unit(unit):
         run_api(res, unit[1])
     elif unit[0] == "S6":
         run_corpus(res, unit[1])
+    elif unit[0] == "SPECIAL":
+        for text in SPECIAL:
+            cat, msg = judge_text(text, CORNERS)
+            res["evals"] += 1
+            if cat is None:
+                R.add_outcome(res, "transparent")
+                res["states"].add(R.h64(text))
+            elif cat == "unparsed":
+                R.add_outcome(res, "unparsed_under_all_flags")
+            else:
+                R.add_violation(res, "%s|special %d" % (cat, SPECIAL.index(text)), "bookkeeping flags are not transparent: " + msg, {"text": text}, None)
+        R.add_sub(res, "hand-made texts: CRLF + multi-line strings, odd characters, stacked comments", len(SPECIAL))
     elif unit[1] == "S4":
-        run_docs(res, list(S.s4()) + list(S.root_lists()) + O.rich_docs())
+        run_docs(res, ([(l, t) for l, t in S.s4() if l.endswith("before_after")] + O.rich_docs())[unit[2]::8], with_options=True)
+        run_docs(res, ([(l, t) for l, t in S.s4() if not l.endswith("before_after")] + list(S.root_lists()))[unit[2]::8])
     else:
         run_docs(res, list(S.iter_unit((unit[1], unit[2]))))
     return res
@@ -201,5 +253,5 @@ def describe(tier):
 
 def replay(case):
     text = case.get("text") or corpus.read(R.REPO + "/" + case["file"])
-    cat, msg = judge_text(text)
+    cat, msg = judge_text(text, CORNERS)
     return {"category": cat, "message": msg} if cat and cat != "unparsed" else None
